@@ -15,7 +15,8 @@ from vf.pyvc import extract
 from vf import repro_model as rm
 
 MOD = "debian._deb822_repro.parsing"
-WORDS = ["amd64", "i386", "any", "linux-any", "a", "b1", "x_y", "any", "#hash", "#"]
+from vf import tricky
+WORDS = ["amd64", "i386", "any", "linux-any", "a", "b1", "x_y", "any", "#hash", "#"] + [w for w in tricky.WORDS if "," not in w]
 
 
 def split_spec(field_text, kind):
